@@ -354,7 +354,12 @@ class ParallelObserverExpression(ObserverExpression):
     def _create_graphs(self, branches):
         left_graphs = self._left._create_graphs(branches=branches)
         right_graphs = self._right._create_graphs(branches=branches)
-        return left_graphs + right_graphs
+        # Alternatives that are equal denote the same pattern; keeping both
+        # would make expressions like "a.[b,b]" fail, as the children of an
+        # ObserverGraph must be unique.
+        return left_graphs + [
+            graph for graph in right_graphs if graph not in left_graphs
+        ]
 
 
 def join(*expressions):
